@@ -24,5 +24,6 @@ O4b == LET F(i, j) == b(i) * c(i) * a(i, j) * c(j) IN Sum2(F) = 6
 O4c == LET F(i, j) == b(i) * a(i, j) * c(j) * c(j) IN Sum2(F) = 4
 O4d == LET F(i, j, k) == b(i) * a(i, j) * a(j, k) * c(k) IN Sum3(F) = 2
 HasOrder(p) == /\ (p >= 1 => O1) /\ (p >= 2 => O2) /\ (p >= 3 => O3a /\ O3b) /\ (p >= 4 => O4a /\ O4b /\ O4c /\ O4d)
-OrderExact == RowSums /\ HasOrder(Order(adv)) /\ (Order(adv) < 4 => ~HasOrder(Order(adv) + 1))
+FamilyOrder2 == \A sn \in 1..4, sd \in 1..4 : (2 * sn >= sd) => Fam2Order2(sn, sd)
+OrderExact == FamilyOrder2 /\ RowSums /\ HasOrder(Order(adv)) /\ (Order(adv) < 4 => ~HasOrder(Order(adv) + 1))
 =============================================================================
